@@ -260,12 +260,13 @@ func (server *Server) tlsServe(l net.Listener, tlsConfig *tls.Config, epoch int)
 // receiveTLS performs the TLS handshake of a client connection and handles it.
 func (server *Server) receiveTLS(conn net.Conn, tlsConfig *tls.Config, epoch int) error {
 	tlsConn := tls.Server(conn, tlsConfig)
+	verifPoint("tls.handshake.begin", conn)
 	// Stop closes the transports whose handshake is still running: they are no registered connections yet.
 	if !server.AddHandshakeInEpoch(conn, epoch) {
 		// The server was stopped after this connection had been accepted.
+		defer verifPoint("recv.closed", conn)
 		return conn.Close()
 	}
-	verifPoint("tls.handshake.begin", conn)
 	err := tlsConn.Handshake()
 	server.RemoveHandshake(conn)
 	if err != nil {
